@@ -3,7 +3,8 @@
    Proofs/ReaderSplitProofs.v.  Model: Model/ReaderSplit.v (a reader is a script
    of responses (bytes, io.EOF-or-nil); [delivers sc d]: the script is a
    reader — io.EOF on its last response at most — whose bytes are d).
-   The statements are about the reader as repaired by /repo e4074d6; the
+   The statements are about the reader of /repo afaa1e5 (e4074d6 normalising Read,
+   8884bbf buffer growth, 40e3af2 validateTime with Model/CbeTime.v); the
    witnesses of the former defects are pinned in harness/cmd/vh/c28.go. *)
 From CE Require Import Model.ReaderSplit Proofs.ReaderSplitProofs.
 Open Scope N_scope.
@@ -83,6 +84,20 @@ Example C28_former_witnesses :
   decode_stream 5368709120 [([], false); ([129], false); ([], false); ([0; 1], true)] = decode_mem 5368709120 [129; 0; 1] /\
   decode_stream 5368709120 [([129; 128], false); ([], false); ([128; 0; 154; 155], false)]
     = decode_mem 5368709120 [129; 128; 128; 0; 154; 155].
+Proof. vm_compute. repeat split. Qed.
+
+(* Times: 23:00:00 with zone E/Paris is delivered (area name expanded), hour 24 is
+   rejected by validateTime, both alike from memory and from a reader that
+   delivers one byte per call with an empty read in between and io.EOF with the last byte. *)
+Example C28_example_time :
+  let ok := [129; 0; 123; 1; 128; 251; 14; 69; 47; 80; 97; 114; 105; 115] in
+  let bad := [129; 0; 123; 0; 0; 252] in
+  let split := fix split (d : bytes) : script :=
+    match d with [] => [] | [x] => [([x], true)] | x :: r => ([x], false) :: ([], false) :: split r end in
+  snd (decode_mem 5368709120 ok) = SOk /\ length (fst (decode_mem 5368709120 ok)) = 4%nat /\
+  decode_stream 5368709120 (split ok) = decode_mem 5368709120 ok /\
+  snd (decode_mem 5368709120 bad) = SErr /\
+  decode_stream 5368709120 (split bad) = decode_mem 5368709120 bad.
 Proof. vm_compute. repeat split. Qed.
 
 (* Non-vacuity of the CTE statement: a reader with a zero-length read and data+EOF. *)
